@@ -3239,7 +3239,7 @@ example : jsParseExpr b!"(- ((opt_data.x != null) != null))" = some (.neg (.call
 /-- the data KEY `length` and the length FUNCTION: textually distinct since soyjs 0a4b4eb, and read apart -/
 example : jsParseExpr b!"opt_data.x.length" = some (.member (.optData b!"x") b!"length") :=
   jsparse_render_expr (.member (.optData b!"x") b!"length")
-    (by simp only [Img, lv]; exact ⟨⟨_, _, rfl, rfl, by decide⟩, rfl, ⟨_, _, rfl, rfl, by decide⟩, fun _ => rfl⟩)
+    (by simp only [Img]; exact ⟨⟨_, _, rfl, rfl, by decide⟩, rfl, ⟨_, _, rfl, rfl, by decide⟩, fun _ => rfl⟩)
 example : jsParseExpr b!"(opt_data.x).length" = some (.call1 .length (.optData b!"x")) :=
   jsparse_render_expr (.call1 .length (.optData b!"x")) (by simp only [Img]; exact ⟨_, _, rfl, rfl, by decide⟩)
 example : jsParseExpr b!"(5).length" = some (.call1 .length (.num 5)) :=                    -- … and since
